@@ -98,6 +98,19 @@ def scriptTags (s : Script) : List String :=
   (if s.inputs ≠ [] ∧ s.wipos.any (· < s.calls.length) then ["withinput-early"] else []) ++
   (if s.wipos ≠ [] ∧ s.inputs.any (fun kv => keys.contains kv.1) then ["key-collides-with-input"] else [])
 
+/-- what the /show handler answers for the messages `ms` it holds: list readers, then keyed readers
+    (model: `messageOf` / `oldInputOf`) for the queried keys -/
+def renderObs (scriptKeys : List Bytes) (ms : List Msg) : String :=
+  renderSeen ms ++ "~" ++ renderKeyed (queryKeys scriptKeys ms) (messageOf ms) (oldInputOf ms)
+
+/-- split an observed "<messages>~<keyed>" ("nohandler" has no keyed part) -/
+def splitSeen (s : String) : String × String :=
+  match s.splitOn "~" with
+  | [m, k] => (m, k)
+  | _ => (s, "")
+
+def Script.keys (s : Script) : List Bytes := s.calls.map (·.1) ++ s.inputs.map (·.1)
+
 def bit (b : Bool) : String := if b then "1" else "0"
 
 def handleRtc (id : String) (s : Script) (issued c2 seen2 c3 seen3 : String) : Except String Verdict := do
@@ -111,11 +124,13 @@ def handleRtc (id : String) (s : Script) (issued c2 seen2 c3 seen3 : String) : E
   let (m2, pool2, sc2) := serve Slice.empty (jar1.getD []) []
   let jar2 := Jar.apply wireSafe jar1 sc2
   let (m3, _, _) := serve pool2 (jar2.getD []) []
-  let modelObs := s!"{optHex wire};{optHex jar1};{renderSeen m2};{optHex jar2};{renderSeen m3}"
+  let modelObs := s!"{optHex wire};{optHex jar1};{renderObs s.keys m2};{optHex jar2};{renderObs s.keys m3}"
   let implObs := s!"{issued};{c2};{seen2};{c3};{seen3}"
   let flash := expectedFlash s.calls
   let old := expectedOldN s.wipos.length s.inputs
-  let spec := specConforming flash old { issued := iss, c2 := c2v, seen2 := seen2, c3 := c3v, seen3 := seen3 }
+  let (s2, k2) := splitSeen seen2
+  let (s3, k3) := splitSeen seen3
+  let spec := specConforming flash old { issued := iss, c2 := c2v, seen2 := s2, c3 := c3v, seen3 := s3, keyed2 := k2, keyed3 := k3 } s.keys
   let known := if Known.K1for spec false (flash ++ old) then some "K1" else none
   let tags := ["rtc", if ms = [] then "nomsgs" else "msgs"] ++ (if ms ≠ [] then ["nt-rtc"] else []) ++ scriptTags s
   pure { id := id, modelObs := modelObs, implObs := implObs, spec := spec, known := known, tags := tags }
@@ -129,7 +144,9 @@ def handleRtt (id : String) (s : Script) (issued st2 seen2 exp2 st3 seen3 : Stri
   let implObs := s!"{issued};{st2};{seen2};{exp2};{st3};{seen3}"
   let flash := expectedFlash s.calls
   let old := expectedOldN s.wipos.length s.inputs
-  let spec := specTransparent flash old { issued := iss, st2 := st2n, seen2 := seen2, exp2 := exp2 == "1", st3 := st3n, seen3 := seen3 }
+  let (s2, k2) := splitSeen seen2
+  let (s3, k3) := splitSeen seen3
+  let spec := specTransparent flash old { issued := iss, st2 := st2n, seen2 := s2, exp2 := exp2 == "1", st3 := st3n, seen3 := s3, keyed2 := k2, keyed3 := k3 } s.keys
   let known := if Known.K1for spec true (flash ++ old) then some "K1" else none
   -- model of the exchange with a verbatim-copying client
   let (modelObs, tags) : String × List String :=
@@ -137,7 +154,7 @@ def handleRtt (id : String) (s : Script) (issued st2 seen2 exp2 st3 seen3 : Stri
     | none =>
       let (m2, pool2, _) := serve Slice.empty [] []
       let (m3, _, _) := serve pool2 [] []
-      (s!"none;200;{renderSeen m2};0;200;{renderSeen m3}", ["nocookie"])
+      (s!"none;200;{renderObs s.keys m2};0;200;{renderObs s.keys m3}", ["nocookie"])
     | some v =>
       if !v.all validHeaderValueByte then
         -- fasthttp refuses the request header: 400 both times, nothing expires the cookie
@@ -149,9 +166,16 @@ def handleRtt (id : String) (s : Script) (issued st2 seen2 exp2 st3 seen3 : Stri
         let (m2, pool2, sc2) := serve Slice.empty v []
         let jar2 := Jar.apply (fun _ => true) (some v) sc2
         let (m3, _, _) := serve pool2 (jar2.getD []) []
-        (s!"{toHexField v};200;{renderSeen m2};{bit (sc2 == some none)};200;{renderSeen m3}",
+        (s!"{toHexField v};200;{renderObs s.keys m2};{bit (sc2 == some none)};200;{renderObs s.keys m3}",
          ["delivered", "nt-rtt-delivered"])
   pure { id := id, modelObs := modelObs, implObs := implObs, spec := spec, known := known, tags := "rtt" :: (tags ++ scriptTags s) }
+
+/-- a flash message and an old input under the same key: which kind comes first for that key -/
+def collisionTags (ms : List Msg) : List String :=
+  let both := ms.filter fun m => ms.any fun m' => m'.key = m.key && m'.old != m.old
+  match both with
+  | [] => []
+  | m :: _ => [if m.old then "nt-keyed-old-first" else "nt-keyed-flash-first"]
 
 structure Step where
   status : Nat
@@ -193,12 +217,12 @@ def handleDec (id : String) (cookies steps allocs : String) : Except String Verd
         let (o, t) := go r.slice.release cs ss
         let tag := if !transparentSafe ck then "seen-from-impl"
                    else if (parse seen).isNone then "malformed" else if r.messages = [] then "wellformed-empty" else "nt-decoded"
-        (s!"200/{toHexField seen}/{renderSeen r.messages}/{bit r.expire}" :: o, tag :: t)
+        (s!"200/{toHexField seen}/{renderObs [] r.messages}/{bit r.expire}" :: o, tag :: (collisionTags r.messages ++ t))
   let (mo, tags) := go Slice.empty cks sts
   let implObs := steps
   let spec := firstSome ((cks.zip (sts.zip als)).map fun (ck, st, al) =>
     specStep ck { status := st.status, seen := if st.seen == "none" then none else fromHex st.seen,
-                  msgs := st.msgs, exp := st.exp == "1", alloc := al })
+                  msgs := (splitSeen st.msgs).1, exp := st.exp == "1", alloc := al, keyed := (splitSeen st.msgs).2 })
   pure { id := id, modelObs := "|".intercalate mo, implObs := implObs, spec := spec, tags := "dec" :: tags.eraseDups }
 
 def handleCase (f : List String) : Except String Verdict := do
